@@ -387,6 +387,66 @@ def run(kmax):
     return 0
 
 
+def prun(jobs):
+    """like run, but J workers, each with its own copy of /verif and its own scratch worktree of /repo
+    (VERIF_REPO + PYTHONPATH point the copy's checks at that worktree); /repo itself is not touched"""
+    import threading
+    muts = json.load(open(os.path.join(WORK, "mutants.json")))
+    flt = json.load(open(os.path.join(WORK, "filter.json")))
+    res_path = os.path.join(WORK, "run.json")
+    res = json.load(open(res_path)) if os.path.exists(res_path) else {}
+    todo = [m for m in muts if m["id"] not in res and flt.get(m["id"], {}).get("survives_tests")]
+    lock = threading.Lock()
+    par = "/root/scratch/par"
+    os.makedirs(par, exist_ok=True)
+
+    def worker(i):
+        vc, wt = os.path.join(par, f"v{i}"), os.path.join(par, f"r{i}")
+        sh(["git", "-C", REPO, "worktree", "remove", "--force", wt])
+        shutil.rmtree(wt, ignore_errors=True)
+        shutil.rmtree(vc, ignore_errors=True)
+        sh(["rsync", "-a", "--exclude", ".git", "--exclude", "replays", VERIF + "/", vc + "/"])
+        rc, out = sh(["git", "-C", REPO, "worktree", "add", "-q", "--detach", wt, "HEAD"])
+        if rc:
+            print(out)
+            return
+        env = dict(os.environ, VERIF_REPO=wt, PYTHONPATH=wt, VERIF_EVIDENCE_DIR=os.path.join(vc, "evidence_patched"))
+        while True:
+            with lock:
+                if not todo:
+                    break
+                m = todo.pop(0)
+            src = head_src(m["file"])
+            r = {}
+            try:
+                open(os.path.join(wt, m["file"]), "w").write(apply_mutant(src, m))
+                for p in m["props"]:
+                    rc, out = sh([os.path.join(vc, "check"), p], cwd=vc, timeout=1800, env=env)
+                    lines = [l for l in out.splitlines() if l.startswith(("VIOLATION", "OK ", "MODEL-ERROR", "INFRA-ERROR"))]
+                    r[p] = {"exit": rc, "caught": rc == 1, "with_failing_input": any(l.startswith("VIOLATION") and "no-failing-input-found" not in l for l in lines),
+                            "first": lines[0][:200] if lines else out[-200:]}
+                    if rc == 1 and r[p]["with_failing_input"]:
+                        break
+            finally:
+                sh(["git", "checkout", "--", "."], cwd=wt)
+            with lock:
+                res[m["id"]] = r
+                json.dump(res, open(res_path, "w"), indent=1)
+                print(m["id"], m["file"].split("/")[-1], m["func"], m["op"], "|", m["before"][:50], "=>", m["after"][:50], "|",
+                      {p: ("FI" if v["with_failing_input"] else ("V" if v["caught"] else f"exit{v['exit']}")) for p, v in r.items()}, flush=True)
+        sh(["git", "-C", REPO, "worktree", "remove", "--force", wt])
+        shutil.rmtree(wt, ignore_errors=True)
+        shutil.rmtree(vc, ignore_errors=True)
+
+    ths = [threading.Thread(target=worker, args=(i,)) for i in range(jobs)]
+    for t in ths:
+        t.start()
+    for t in ths:
+        t.join()
+    sh(["git", "-C", REPO, "worktree", "prune"])
+    return 0
+
+
 def report():
     muts = json.load(open(os.path.join(WORK, "mutants.json")))
     flt = json.load(open(os.path.join(WORK, "filter.json")))
@@ -398,6 +458,8 @@ def report():
     caught_fi = [m for m in ran if any(v["with_failing_input"] for v in res[m["id"]].values())]
     caught_nofi = [m for m in ran if m not in caught_fi and any(v["caught"] for v in res[m["id"]].values())]
     missed = [m for m in ran if m not in caught_fi and m not in caught_nofi]
+    for m in caught_nofi:
+        tri.setdefault(m["id"], "reported without a failing input")
     out = ["# Systematic mutation scan", "",
            "`tools/mutscan.py`: standard operators (comparison / arithmetic / Boolean swaps, constants ±1, negated conditions, dropped keyword",
            "arguments, deleted statements) applied to the functions the properties are anchored in and the helpers they call; a mutant counts only",
@@ -416,6 +478,13 @@ def report():
         a[1] += 1
         a[0] += 1 if (m in caught_fi or m in caught_nofi) else 0
     out += ["| operator | caught / run |", "|---|---|"] + [f"| {k} | {a[0]} / {a[1]} |" for k, a in sorted(by_op.items())] + [""]
+    cats = {}
+    for m in missed:
+        c = tri.get(m["id"], "untriaged").split(":")[0]
+        cats[c] = cats.get(c, 0) + 1
+    out += ["Triage of the mutants that were not caught (and of those reported without a failing input): "
+            + "; ".join(f"{v} x {k}" for k, v in sorted(cats.items(), key=lambda kv: -kv[1])) + ".",
+            "First pass (before the gaps this scan exposed were closed): see DESIGN.md section 8.", ""]
     out += ["## Not caught", "", "| id | where | change | checks run | triage |", "|---|---|---|---|---|"]
     for m in missed:
         out.append(f"| {m['id']} | {m['file'].replace('pyrepseq/', '')}:{m['line']} `{m['func']}` | `{m['before'][:70]}` → `{m['after'][:70]}` ({m['note']}) | "
@@ -432,5 +501,7 @@ if __name__ == "__main__":
         sys.exit(filter_(int(sys.argv[2]) if len(sys.argv) > 2 else 8))
     elif cmd == "run":
         sys.exit(run(int(sys.argv[2]) if len(sys.argv) > 2 else 10 ** 6))
+    elif cmd == "prun":
+        sys.exit(prun(int(sys.argv[2]) if len(sys.argv) > 2 else 6))
     elif cmd == "report":
         report()
